@@ -17,6 +17,7 @@ FILE_DEPS = {
     'src/transaction/legacy.rs': ['src/transaction/rlp.rs'],
     'src/transaction/eip2930.rs': ['src/transaction/rlp.rs'],
     'src/transaction/eip1559.rs': ['src/transaction/rlp.rs'],
+    'src/transaction/accesslist.rs': ['src/transaction/rlp.rs'],
 }
 
 
@@ -60,6 +61,15 @@ for _n, _b in (('empty', '0 items'), ('small', '3 items of 1,3,2 bytes'), ('long
     K(f'c07_list_{_n}', RLP, 'rlp::list', {'C07': Q},
       'list(xs) == hdr(sum |x_i|, 0xc0) ++ concat(xs) (pairing for the unbounded Verus obligation)', complete=False, bound=_b)
 K('c07_iter_small', RLP, 'rlp::iter', {'C07': Q}, 'iter(xs) == list(xs as slices)', complete=False, bound='2 items of 1 and 2 bytes')
+for _n, _t in ((1, Q), (12, Q), (17, T)):
+    K(f'c07_iter_n{_n}', RLP, 'rlp::iter', {'C07': _t, 'C06': _t},
+      'iter(xs) == hdr(total, 0xc0) ++ x_1 ++ ... ++ x_n: every item, in order, none dropped or repeated (the contract of rlp::iter assumed by the typed-transaction and access-list harnesses)',
+      complete=False, bound=f'{_n} items of 2 symbolic bytes each', timeout=900)
+AL = 'src/transaction/accesslist.rs'
+for _n, _b, _t in (('empty', 'no entries', Q), ('e1_k0', 'one entry without keys', Q), ('e1_k2', 'one entry with two keys', Q), ('e1_k3', 'one entry with three keys', T)):
+    K(f'c06_access_list_{_n}', AL, 'AccessList::rlp_encode', {'C06': _t, 'C07': _t},
+      'AccessList::rlp_encode is the list of, per entry in order, the two-item list [address as a 20-byte string, list of all storage keys of the entry as 32-byte strings, in order]: nothing dropped, merged, reordered or added (rlp::bytes / list / iter as recording callee contracts)',
+      complete=False, bound=f'shape: {_b}; addresses and keys symbolic (shapes with two entries did not finish in 15 min)', replay='none', timeout=900)
 K('xc_usize_lz_bytes', RLP, 'usize::{leading_zeros,to_be_bytes}', {'C07': Q},
   'cross-check of the interface contracts assumed by the Verus unit: usize::leading_zeros == 64 - bitlen, to_be_bytes == be_fix(n, 8), for all usize')
 K('xc_u256_lz_bytes', RLP, 'ethnum::U256::{leading_zeros,to_be_bytes}', {'C07': Q},
@@ -238,7 +248,7 @@ for _h in ('c13_visitor_u256_from_u64', 'c13_visitor_u256_from_nonneg_i64', 'c13
       'for every JSON number of that Rust type: taken at exactly its mathematical value, or refused when fractional / not exactly representable (|x| >= 2^53)', complete=True)
 N('nb_tx_encoding_vs_reference', TXN, 'Transaction::{deserialize, signing_message, encode}', {'C06': Q, 'C07': Q, 'C11': Q},
   'signed bytes and signing digest equal a reference encoder written from the Yellow Paper / EIP-155 / 2930 / 1559; a strict decoder accepts the output, consumes it completely and returns every field',
-  'native: 3 kinds x 68 calldata lengths (0..=60, 255..257, 1100, 65535..65537) x 3 random field draws (byte widths 0..32, access lists up to 3x3) x 3 signatures (r,s at 1, n-1, random; both parities); 13 structured access lists (repeated keys / addresses, empty key lists, zero and 0xff keys) for both typed kinds')
+  'native: 3 kinds x 68 calldata lengths (0..=60, 255..257, 1100, 65535..65537) x 3 random field draws (byte widths 0..32, access lists up to 3x3) x 3 signatures (r,s at 1, n-1, random; both parities); 20 structured access lists (repeated keys / addresses, empty key lists, zero and 0xff keys, 16 / 17 / 40 / 256 keys per entry, 17 / 33 / 70 entries) for both typed kinds')
 N('nb_bip32_published_vectors', 'src/hdk.rs', 'hdk::derive', {'C16': Q},
   'hdk::derive reproduces BIP-32 test vector 1 (the only independent oracle for the derivation the selected-account clause rests on; C03 itself is not decidable here)',
   'native: 5 published chain links (hardened and normal indices, index 10^9)')
@@ -250,6 +260,9 @@ N('nb_tx_json_number_spellings', TXN, 'transaction field deserialization', {'C13
   'every spelling of an integer denotes the same value and gives the identical encoding; negative, fractional, inexact, >= 2^256, empty and non-numeric spellings are refused; bytes need 0x + even hex; addresses 20 bytes; storage keys 32 bytes; legacy chain ids beyond 2^255-19 refused',
   'native: 16 numeric fields x 14 integers x up to 6 spellings; 30 malformed spellings per field; 12 byte/address and 7 access-list malformations per kind')
 
+K('c08_compute_composition', 'src/typeddata.rs', 'TypedDataBlob::compute', {'C08': Q, 'C09': Q, 'C20': Q},
+  'compute, for every verdict and digest of its callees (verify_domain_type, Types::struct_hash, Digest::of as recording callee contracts): the domain type is verified first and a refusal ends the computation before anything is hashed; then hashStruct("EIP712Domain", .) and hashStruct(primaryType, .) in this order and nothing else; a refused value is an error and no digest is produced; otherwise the signing digest is one Keccak call over exactly 0x19 0x01 || domainSeparator || hashStruct(message), and the three digests are returned unchanged',
+  complete=True, bound='the two JSON objects of the document are empty (which object each hashStruct call receives is therefore not observable here; covered natively)', replay='none', timeout=600, module='verif_kani4')
 # C20 — domain type check under contract (bounded by member count and name length, content symbolic)
 for _n in range(0, 7):
     K(f'c20_domain_members_{_n}', 'src/typeddata.rs', 'TypedDataBlob::verify_domain_type', {'C20': Q if _n <= 2 else T, 'C17': T},
@@ -351,15 +364,15 @@ PROPS = {
     'C09': dict(level='proof',
                 technique='Kani/CBMC contracts on the real Types::encode_value integer and bytesN arms over all values and widths; native differential stand-in for the JSON / collection layer',
                 claim='The range logic is proved: for every width and every 256-bit value, uintN is accepted iff v < 2^N, intN iff -2^(N-1) <= v < 2^(N-1), bytesN iff the payload has exactly N bytes (payloads up to 40 bytes), with the exact word layout. The remaining clauses (negative numbers for unsigned types in every spelling, fixed array sizes, missing / undeclared members, undefined struct types, wrong JSON kinds, nothing hashed on refusal) are checked only by the bounded native differential against a reference implementation.',
-                note='Callee contracts in the proofs: the JSON-to-integer parsers return any 256-bit value (their own behaviour, e.g. refusing negative numbers, is C13). Bounded, not proved: everything that goes through serde_json::Value / HashMap / Vec<Value> (CBMC does not finish on Value drop glue and BTreeMap). TypedDataBlob::compute ordering ("verified before anything is hashed") is read off natively through refusal results only.'),
+                note='Callee contracts in the proofs: the JSON-to-integer parsers return any 256-bit value (their own behaviour, e.g. refusing negative numbers, is C13). Bounded, not proved: everything that goes through serde_json::Value / HashMap / Vec<Value> (CBMC does not finish on Value drop glue and BTreeMap). TypedDataBlob::compute ordering ("verified before anything is hashed", no digest after a refusal) is proved by c08_compute_composition with its callees as contracts.'),
     'C08': dict(level='exploration',
                 technique='bounded stand-in: native differential against a reference EIP-712 implementation written from the standard; Kani contracts only on the atomic word encoders',
-                claim='BOUNDED, not proved: on 21840 enumerated type graphs (1..3 members over 16 kinds, 5 dependency-graph shapes including shared, repeated, self- and mutually-recursive references through arrays) with conforming values the three digests equal the reference implementation; the member type grammar is enumerated (55590 strings). Proved by Kani: the 32-byte word layout of uintN / intN / bytesN / bool and bytes = keccak(payload).',
-                note='encode_type (work list over HashMap/BTreeMap + write!), struct_hash (serde_json::Map) and compute could not be brought within reach of either verifier: Verus has no model of these collections or of serde, CBMC does not terminate on serde_json::Value drop glue / BTreeMap even with every callee stubbed (probed, see DESIGN.md). Keccak-256 is a dependency in both the code and the reference.'),
+                claim='BOUNDED, not proved: on 21840 enumerated type graphs (1..3 members over 16 kinds, 5 dependency-graph shapes including shared, repeated, self- and mutually-recursive references through arrays) with conforming values the three digests equal the reference implementation; the member type grammar is enumerated (55590 strings). Proved by Kani: the 32-byte word layout of uintN / intN / bytesN / bool and bytes = keccak(payload); the top-level composition in TypedDataBlob::compute (domain type verified first, the two struct hashes in order, digest = keccak(0x19 0x01 || domainSeparator || hashStruct(message)), errors propagate and nothing is hashed after a refusal) for every verdict and digest of its callees.',
+                note='encode_type (work list over HashMap/BTreeMap + write!) and struct_hash (serde_json::Map) could not be brought within reach of either verifier: Verus has no model of these collections or of serde, CBMC does not terminate on serde_json::Value drop glue / BTreeMap even with every callee stubbed (probed, see DESIGN.md). Keccak-256 is a dependency in both the code and the reference.'),
     'C20': dict(level='model_checking',
                 technique='Kani/CBMC bounded contract harnesses on the real TypedDataBlob::verify_domain_type (member counts 0..6, symbolic names and types) plus native exhaustive enumeration of domain member sequences against the rule written from the property statement',
                 claim='BOUNDED (not an unbounded proof): for member counts 0, 1, 2 (quick; 3..6 in thorough) and every combination of member names (all ASCII strings of 3, 4, 7 or 17 bytes) and member types (ten kinds, widths symbolic) verify_domain_type accepts iff the members are a non-empty, order-preserving, duplicate-free selection of the five standard fields with their standard types, and it asks for the type named EIP712Domain (CBMC on the real function, Types::type_definition as callee contract). Native: all 9331 sequences of up to five members over the five standard names plus a foreign name are accepted iff they are one of the 31 well-formed domains and each accepted domain hashes to the reference value; 14 type substitutions and near-miss names at every position and a missing domain type are refused.',
-                note='Member counts above 6 are not machine-checked (a seventh member repeats a name or is foreign: pigeon-hole, argued); names of lengths other than 3, 4, 7, 17 are represented by the 3-byte names (a name of a different length cannot equal a standard name; String == &str compares lengths first - std, assumed). Types::type_definition (HashMap lookup) is a callee contract in the Kani harnesses and exercised natively. "Before anything is hashed" (call order in compute) is not observable natively and compute itself does not go through CBMC (serde_json::Map).',
+                note='Member counts above 6 are not machine-checked (a seventh member repeats a name or is foreign: pigeon-hole, argued); names of lengths other than 3, 4, 7, 17 are represented by the 3-byte names (a name of a different length cannot equal a standard name; String == &str compares lengths first - std, assumed). Types::type_definition (HashMap lookup) is a callee contract in the Kani harnesses and exercised natively. "Before anything is hashed" (call order in compute) is proved by the complete harness c08_compute_composition (callees as recording contracts, empty JSON objects).',
                 jobs=8),
     'C18': dict(level='proof',
                 technique='Kani/CBMC contracts on the real Prefix::from_str (per digit count, symbolic content) and Prefix::matches (all prefix lengths x all addresses); native process-level stand-in for the search and threads',
